@@ -640,7 +640,7 @@ def extract(line, out_line, secrets, collapse_ws):
         if s[0] == "lit":
             if collapse_ws:
                 parts = re.split(r"([ \t\x0b\x0c]+)", s[1])
-                rx += "".join(r"[ \t\x0b\x0c]*" if (i % 2) else re.escape(x) for i, x in enumerate(parts))
+                rx += "".join(r"[ \t\x0b\x0c]+" if (i % 2) else re.escape(x) for i, x in enumerate(parts))
             else:
                 rx += re.escape(s[1])
         elif s[0] == "bad":
